@@ -137,6 +137,8 @@ enum State {
     },
     CheckTokenPass {
         attempt: PassTokenAttempt,
+        /// Whether any bus activity (even undecodable) was noticed since the token was passed.
+        heard_activity: bool,
     },
     AwaitStatusResponse {
         address: crate::Address,
@@ -261,7 +263,10 @@ impl State {
 
     fn transition_check_token_pass(&mut self, attempt: PassTokenAttempt) {
         debug_assert_state!(self, State::CheckTokenPass { .. } | State::PassToken { .. });
-        *self = State::CheckTokenPass { attempt };
+        *self = State::CheckTokenPass {
+            attempt,
+            heard_activity: false,
+        };
     }
 
     fn transition_await_status_response(&mut self, address: crate::Address) {
@@ -379,6 +384,13 @@ impl State {
     fn get_check_token_pass_attempt(&mut self) -> &mut PassTokenAttempt {
         match self {
             Self::CheckTokenPass { attempt, .. } => attempt,
+            _ => unreachable!(),
+        }
+    }
+
+    fn get_check_token_pass_heard_activity(&mut self) -> &mut bool {
+        match self {
+            Self::CheckTokenPass { heard_activity, .. } => heard_activity,
             _ => unreachable!(),
         }
     }
@@ -1383,7 +1395,23 @@ impl FdlActiveStation {
     ) -> PollDone {
         debug_assert_state!(self.state, State::CheckTokenPass { .. });
 
+        if self.pending_bytes > 0 {
+            *self.state.get_check_token_pass_heard_activity() = true;
+        }
+
         if self.check_slot_expired(now) {
+            if *self.state.get_check_token_pass_heard_activity() {
+                // Somebody was transmitting after our token pass, we just could not decode it
+                // (noise, a collision).  Most likely this was the next station using the token, so
+                // we must not send the token again - that would collide with its next attempt.
+                // Should the token really be lost, the token-lost timeout takes care of it.
+                log::warn!(
+                    "Undecodable bus activity after token pass to #{}, not resending the token.",
+                    self.token_ring.next_station()
+                );
+                self.state.transition_active_idle();
+                return PollDone::waiting_for_bus();
+            }
             match *self.state.get_check_token_pass_attempt() {
                 PassTokenAttempt::First => {
                     log::warn!(
